@@ -74,9 +74,20 @@ PROPS = {
 import gen_build as GB, oracle_build as OB
 
 
-def build_stream(gens, nq, nt):
+def build_stream(gens, nq, nt, exhaustive=False):
     """gens: list of (name, generator(rng) -> body | (body, meta), weight)"""
     def generate(rng, tier, seed):
+        cases, agg = generate0(rng, tier, seed)
+        if exhaustive and tier == "thorough":
+            k = 0
+            for body in GB.exhaustive_small():
+                cases.append(Case("build", f"xs-{k}", body, dict(stream="xs"))); k += 1
+            agg["exhaustive_small_scope_cases"] = k
+            agg["exhaustive_scopes"] = ["3 tasks (leaf / leaf-or-over-leaf / over both), sources S,W, generated G, checkers {Equals,Always,Parity}: "
+                                        "every program x every history of an initial build and two rounds of one change, each top-down or bottom-up"]
+        return cases, agg
+
+    def generate0(rng, tier, seed):
         n = int(os.environ["VERIF_SOAK_N"]) if tier == "soak" else (nq * V.depth_factor() if tier == "quick" else nt)
         cases, agg = [], {}
         names = [g[0] for g in gens for _ in range(g[2])]
@@ -190,7 +201,7 @@ def known_if_model_agrees(fid, oracle, pattern=None):
 
 
 def mk(prop, gens, nq, nt, proj, oracle, theorems, **kw):
-    return dict(kinds=["build"], generate=build_stream(gens, nq, nt), proj=proj, oracle=oracle, nontrivial=build_stats,
+    return dict(kinds=["build"], generate=build_stream(gens, nq, nt, exhaustive=kw.pop("exhaustive", False)), proj=proj, oracle=oracle, nontrivial=build_stats,
                 rule=BUILD_RULE, lean_targets=[f"PieModel.Props.{prop}"], theorems=theorems, **kw)
 
 
@@ -210,7 +221,7 @@ def st(**w):
     return [(k, S[k], v) for k, v in w.items()]
 
 
-WELLFORMED_STREAMS = ("td", "tdx", "bu", "bud", "buc")
+WELLFORMED_STREAMS = ("td", "tdx", "bu", "bud", "buc", "xs")
 
 
 def c01_oracle(c, io):
@@ -227,18 +238,18 @@ PROPS.update({
               proj_lines(("op ", "out ", "abort ", "done", "skipped", "fs ", "cl ", "known ", "bad-op")), c01_oracle, [],
               proj_name="C01: returned outputs, abort kinds, resource contents, reference builds",
               known_match=known_any(known_if_model_agrees("K5", c01_oracle, pat_failing_stamper),
-                                    known_if_model_agrees("K8", c01_oracle, pat_aborted_bu_and_failing_checker))),
+                                    known_if_model_agrees("K8", c01_oracle, pat_aborted_bu_and_failing_checker)), exhaustive=True),
     "C02": mk("C02", st(td=3, tdx=3, buc=1, pan=2, pano=1, panr=2, fail=1, bu=1, hid=1, ovl=1, cyc=1, rol=1), 3000, 30000,
               proj_lines(("op ", "ev execute_start", "ev check_", "out ", "abort ", "cl exec", "bad-op")),
               lambda c, io: OB.c02(c, io, exact=c.meta.get("exact", False),
                                     idem_sessions=c.meta.get("stream") in WELLFORMED_STREAMS + ("pano", "panr")), [],
-              proj_name="C02: execute_start and check events with verdicts per session"),
+              proj_name="C02: execute_start and check events with verdicts per session", exhaustive=True),
     "C03": mk("C03", st(bu=4, bud=3, buc=3, k1=1), 3000, 30000,
               proj_lines(("op ", "ev execute_", "ev schedule_task", "out ", "abort ", "done", "fs ", "cl ", "known ", "bad-op")), OB.c03, [],
-              proj_name="C03: executions, scheduling, outputs, contents", known_match=known_if_model_agrees("K1", OB.c03, pat_partial_topdown_before_bu)),
+              proj_name="C03: executions, scheduling, outputs, contents", known_match=known_if_model_agrees("K1", OB.c03, pat_partial_topdown_before_bu), exhaustive=True),
     "C04": mk("C04", st(bu=3, bud=3, buc=2, buf=1, pan=1, panr=1, rol=1, ero=1, hid=1, ovl=1), 3000, 30000,
               proj_lines(("op ", "ev execute_", "ev schedule_", "ev check_task_re", "out ", "abort ", "done", "bad-op")), OB.c04, [],
-              proj_name="C04: order of execute_start/end, schedule and scheduling-check events", known_match=known_if_model_agrees("K7", OB.c04, pat_after_abort)),
+              proj_name="C04: order of execute_start/end, schedule and scheduling-check events", known_match=known_if_model_agrees("K7", OB.c04, pat_after_abort), exhaustive=True),
     "C05": mk("C05", st(hid=4, ero=2, td=1, bu=1, bud=1, pan=1, panr=1, ovl=1, rol=1), 3000, 30000,
               proj_lines(("op ", "out ", "abort ", "done", "skipped", "fs ", "st ", "bad-op")),
               lambda c, io: OB.dump_invariants(c, io, "C05") + OB.abort_content(c, io), [],
@@ -254,16 +265,16 @@ PROPS.update({
               proj_name="C07: abort kinds, task-side log, store dump"),
     "C08": mk("C08", st(td=3, bu=2, bud=2, buc=1, pan=2, panr=1, k2=2, fail=1, hid=1, ovl=1, cyc=1, rol=1, ero=1), 3000, 30000,
               proj_lines(("op ", "st ", "abort ", "bad-op")), OB.c08, [],
-              proj_name="C08: store dump after every session", known_match=known_if_model_agrees("K2", OB.c08, pat_multi_dep_one_target)),
+              proj_name="C08: store dump after every session", known_match=known_if_model_agrees("K2", OB.c08, pat_multi_dep_one_target), exhaustive=True),
     "C09": mk("C09", st(td=3, bu=2, buc=1, fail=2, bud=1, buf=1, pan=1, panr=1, hid=1), 3000, 30000,
               proj_lines(("op ", "ev read_end", "ev write_end", "ev require_end", "ev check_", "abort ", "bad-op")), OB.c09, [],
-              proj_name="C09: stamps in *_end events and verdicts of every check event"),
+              proj_name="C09: stamps in *_end events and verdicts of every check event", exhaustive=True),
     "C16": mk("C16", st(td=2, bu=2, bud=2, buc=1, hid=1, fail=1, buf=1, pan=1, panr=1, ovl=1, cyc=1, rol=1, ero=1, k1=1, k2=1), 3000, 30000,
               proj_lines(ALL_BUILD), lambda c, io: [], [], proj_name="C16: complete canonical event stream and outputs",
               replays=dict(quick=2, thorough=7)),
     "C17": mk("C17", st(td=2, bu=2, buc=1, pan=2, panr=1, fail=2, bud=1, buf=1, hid=1, ovl=1, cyc=1, rol=1), 3000, 30000,
               proj_lines(("op ", "ev ", "tl ", "et ", "composite", "out ", "abort ", "done", "bad-op")), OB.c17, [],
-              proj_name="C17: complete event stream, task-side log, EventTracker contents"),
+              proj_name="C17: complete event stream, task-side log, EventTracker contents", exhaustive=True),
     "C18": mk("C18", st(fail=4, buf=2, td=1, bu=1), 3000, 30000,
               proj_lines(("op ", "errors ", "ev execute_start", "ev schedule_task", "out ", "abort ", "done", "bad-op")), OB.c18, [],
               proj_name="C18: dependency_check_errors, executions, scheduling, outputs"),
